@@ -352,6 +352,9 @@ func (SimpleColumn) readPred(scanner *bufio.Scanner, p ast.PredicateSym, numFact
 				continue
 			}
 			text := scanner.Text()
+			if text == "" {
+				return fmt.Errorf("empty line pred %v column %d fact %d: %w", p, j, i, ErrCouldNotRead)
+			}
 			if text[0] == '/' {
 				var err error
 				text, err = percentUnescape(text)
@@ -425,6 +428,9 @@ func readHeader(scanner *bufio.Scanner) ([]ast.PredicateSym, []int, error) {
 		}
 		if arity < 0 || arity > maxArity {
 			return nil, nil, fmt.Errorf("for predicate %v: %w", name, ErrUnsupportedArity)
+		}
+		if numFacts < 0 {
+			return nil, nil, fmt.Errorf("for predicate %v: invalid number of facts %d: %w", name, numFacts, ErrWrongArgument)
 		}
 		if numFacts > maxFactsPerPredicate {
 			return nil, nil, fmt.Errorf("for predicate %v: %w", name, ErrTooManyFacts)
